@@ -236,7 +236,7 @@ META = {
               "select! start index per poll): the whole run under ambient a is the id-renaming of the canonical run at every step (C04.states_related_by_renaming), hence trace, "
               "time, event count, result are ambient-independent (C04.run_ambient_independent / trace_ambient_independent), a second simulation does not see the counters the first "
               "left behind (C04.second_run_independent_of_first), a simulation built on an ARBITRARY leftover of the previous one (unflushed at_sim_end emissions in BUF_CTX, clock, RNG, MOD_CTX, id counters) behaves as if "
-              "run alone (C04.second_run_independent_of_leftovers, leftovers_are_reset; decide'd witness that it fails if buf_drop kept the buffer); channels with bitrate/queue, send_in and semaphore hand-offs between tasks are modelled; networks built from NDL (inherit + submodules) and long cooperative tasks (yield_now loops) are part of the four-execution comparison; the stream is consumed from the front only and draw order is ambient-independent, dispatch = FES.fetch. Tied to the code "
+              "run alone (C04.second_run_independent_of_leftovers, leftovers_are_reset; decide'd witness that it fails if buf_drop kept the buffer); channels with bitrate/queue, send_in and semaphore hand-offs between tasks are modelled; networks built from NDL (inherit + submodules) and long cooperative tasks (yield_now loops) are part of the four-execution comparison; the builder configuration (calendar-queue geometry, option order; fifth execution under the default geometry) and LocalSet tasks are part of the multi-execution comparison; the stream is consumed from the front only and draw order is ambient-independent, dispatch = FES.fetch. Tied to the code "
               "by executing every generated (model, seed) four times (twice back to back, after a noise simulation, in a child process), comparing the canonical traces, and replaying the model on the recorded stream; "
               "modules may shut down and restart: the seed of every incarnation's tokio runtime is an element of the stream (C04.restart_seed_from_stream, restart_seed_is_next_draw)."),
         design_ref="DESIGN.md §5 C04",
